@@ -169,14 +169,16 @@ def probes(chk, w2c2):
     sentinel = bytes([0x5a ^ i * 7 & 0xff for i in range(16)])
     m.datas.append(dict(mode='active', offset=[('i32.const', 0x10)], bytes=sentinel))
     names = []
-    for n, code, t, w in wasm.LOADS:
-        c = {F32: [('i32.reinterpret_f32',)], F64: [('i64.reinterpret_f64',)]}.get(t, [])
-        m.add_func([I32], [I32 if t in (I32, F32) else I64], [], [('local.get', 0), (n, 0, 0x20)] + c, export='p_' + n)
-        names.append((n, 'load', w))
-    for n, code, t, w in wasm.STORES:
-        c = {F32: [('f32.reinterpret_i32',)], F64: [('f64.reinterpret_i64',)]}.get(t, [])
-        m.add_func([I32, I32 if t in (I32, F32) else I64], [], [], [('local.get', 0), ('local.get', 1)] + c + [(n, 0, 0x20)], export='p_' + n)
-        names.append((n, 'store', w))
+    # variant 'a': base 0xFFFFFFF0 + static offset 0x20 ; variant 'b': base 0x30 + static offset 0xFFFFFFE0  (both: true address 2^32+0x10)
+    for var, off in (('a', 0x20), ('b', 0xFFFFFFE0)):
+        for n, code, t, w in wasm.LOADS:
+            c = {F32: [('i32.reinterpret_f32',)], F64: [('i64.reinterpret_f64',)]}.get(t, [])
+            m.add_func([I32], [I32 if t in (I32, F32) else I64], [], [('local.get', 0), (n, 0, off)] + c, export='p%s_%s' % (var, n))
+            names.append((n, 'load', w, var))
+        for n, code, t, w in wasm.STORES:
+            c = {F32: [('f32.reinterpret_i32',)], F64: [('f64.reinterpret_i64',)]}.get(t, [])
+            m.add_func([I32, I32 if t in (I32, F32) else I64], [], [], [('local.get', 0), ('local.get', 1)] + c + [(n, 0, off)], export='p%s_%s' % (var, n))
+            names.append((n, 'store', w, var))
     b = m.encode()
     plan = e2e.Plan(m)
     d = env.subdir('c05-probe')
@@ -189,19 +191,20 @@ def probes(chk, w2c2):
     exe = os.path.join(d, 'prog')
 
     def one(item):
-        n, kind, w = item
+        n, kind, w, var = item
+        base = '0xfffffff0' if var == 'a' else '0x30'
         if kind == 'load':
-            script = 'I 0\nc 0 %d 0xfffffff0\n' % plan.fk('p_' + n)
+            script = 'I 0\nc 0 %d %s\n' % (plan.fk('p%s_%s' % (var, n)), base)
         else:
-            script = 'I 0\nc 0 %d 0xfffffff0 0x1122334455667788\nw 0 0 16 16\n' % plan.fk('p_' + n)
-        sp = os.path.join(d, 'probe_%s.txt' % n)
+            script = 'I 0\nc 0 %d %s 0x1122334455667788\nw 0 0 16 16\n' % (plan.fk('p%s_%s' % (var, n)), base)
+        sp = os.path.join(d, 'probe_%s_%s.txt' % (var, n))
         open(sp, 'w').write(script)
         r = env.run([exe, sp], cwd=d, env=env.SAN_ENV, timeout=60)
         return item, script, r
 
-    for (n, kind, w), script, r in env.pmap(one, names):
+    for (n, kind, w, var), script, r in env.pmap(one, names):
         chk.ev()
-        chk.distinct(('probe', n))
+        chk.distinct(('probe', n, var))
         files = {'module.wasm': b, 'script.txt': script, 'stdout.txt': r.out, 'stderr.txt': r.err[-3000:]}
         lines = r.out.splitlines()
         if r.rc != 0:
@@ -215,10 +218,10 @@ def probes(chk, w2c2):
                 want = int.from_bytes(sentinel[:w], 'little')
                 mask = (1 << (8 * w)) - 1
                 if got & mask == want & mask:
-                    chk.violation('C05:wrap-probe:%s' % n, '%s at base 0xfffffff0 offset 0x20 returned the sentinel stored at wrapped address 0x10 (%#x)' % (n, got), files)
+                    chk.violation('C05:wrap-probe:%s' % n, '%s (probe variant %s: base+static offset = 2^32+0x10) returned the sentinel stored at wrapped address 0x10 (%#x)' % (n, var, got), files)
         else:
             if len(lines) > 2 and lines[2].split(' ')[1:] != base_line.split(' ')[1:]:
-                chk.violation('C05:wrap-probe:%s' % n, '%s at base 0xfffffff0 offset 0x20 modified the sentinel at wrapped address 0x10: %s' % (n, lines[2]), files)
+                chk.violation('C05:wrap-probe:%s' % n, '%s (probe variant %s: base+static offset = 2^32+0x10) modified the sentinel at wrapped address 0x10: %s' % (n, var, lines[2]), files)
 
 
 def main(chk):
